@@ -206,6 +206,8 @@ class FakeQueue:
         else:
             self.sched.yield_point("queue.put")
         self.items.append(item)
+        # the item is visible to the consumer before put() returns to the producer
+        self.sched.yield_point("queue.put.done")
 
     def get(self):
         self.sched.yield_point("queue.get", pred=lambda: bool(self.items))
